@@ -421,3 +421,10 @@ func ResetConn(c net.Conn) {
 	}
 	c.Close()
 }
+
+// RawBytes returns a copy of every byte this connection received in HTTP mode.
+func (oc *OConn) RawBytes() []byte {
+	oc.mu.Lock()
+	defer oc.mu.Unlock()
+	return append([]byte(nil), oc.RawIn.Bytes()...)
+}
